@@ -48,8 +48,8 @@ pub fn all() -> Vec<PropDef> {
     v.push(PropDef {
         miri: None,
         id: "C02", level: "exploration", driver: "D1 caller-schedule simulator (sync stream parser behind a real hand-off)",
-        scens: vec![s("stream", c02, 120_000, 4_000_000)],
-        rule: "each run = one seeded request whose preamble is parsed by the real request parser, then a chooser-driven schedule of parse(dest Some/None)/consume_stream/compress/consume_output/set_stream over compliant stream records with noise; every delivered byte compared with M-stream at its offset; distinct = distinct (skeleton, digest); all runs are non-trivial (each contains schedule alternatives)",
+        scens: vec![s("stream", c02, 120_000, 4_000_000), s("async_delivery", d2::c09, 30_000, 1_000_000)],
+        rule: "each run = one seeded request whose preamble is parsed by the real request parser, then a chooser-driven schedule of parse(dest Some/None)/consume_stream/compress/consume_output/set_stream over compliant stream records with noise; every delivered byte compared with M-stream at its offset; async_delivery: the same extraction observed through the async Request (the C09 connection scenario: poll_read into caller buffers of 0..70000 bytes, fill_buf/consume, vectored reads, under short reads, Pending and reply flushes that return Pending); distinct = distinct (skeleton, digest); all runs are non-trivial (each contains schedule alternatives)",
         assumptions: vec!["caller respects the documented preconditions (dest only with an empty stream buffer; advance only after end-of-stream in this scenario)", "every GetValues pair fits the buffer"],
         real: REAL_SYNC.to_vec(), stub: STUB_SYNC.to_vec(),
     });
@@ -64,7 +64,7 @@ pub fn all() -> Vec<PropDef> {
     v.push(PropDef {
         miri: None,
         id: "C05", level: "exploration", driver: "D1 caller-schedule simulator (conversion chain)",
-        scens: vec![s("chain", d1stream::c05, 120_000, 4_000_000), s("preamble_leftover", d1req::c01, 45_000, 1_500_000)],
+        scens: vec![s("chain", d1stream::c05, 120_000, 4_000_000), s("preamble_leftover", d1req::c01, 45_000, 1_500_000), s("async_pipelined", d2::c05_async, 45_000, 1_500_000)],
         rule: "each run = k in 1..4 sequential requests on one wire driven through request parser -> stream parser -> request parser ... with one shared buffer, seeded look-ahead at each hand-off and seeded stop points of the reader; leftovers compared with the unread suffix of the fed bytes, environments and stream contents with per-request models",
         assumptions: vec!["bytes of request i+1 reach the stream parser of request i only while it is held at the final stream's terminator (otherwise the protocol's no-multiplexing reply applies, which C04 covers)"],
         real: REAL_SYNC.to_vec(), stub: STUB_SYNC.to_vec(),
@@ -109,15 +109,15 @@ pub fn all() -> Vec<PropDef> {
     v.push(PropDef {
         miri: None,
         id: "C07", level: "exploration", driver: "D2 deterministic executor + simulated transport + open-loop peer + scripted handlers",
-        scens: vec![s("conn", d2::c07, 90_000, 3_000_000)],
-        rule: "each run = one connection task Token::run over the simulated transport: 1..4 requests from a compliant open-loop client (request i+1 released after EndRequest i is in the log), noise records, a chooser-driven handler (read all/part/nothing via read or fill_buf, writes, every ExitStatus), reads of 1..n bytes or Pending and writes accepting 1..n bytes or Pending at every call, spurious polls; the decoded transport log and the handler log are compared with M-conn; distinct = distinct (skeleton, digest); non-trivial = at least one non-default scheduling alternative or transport fault (short read/write, Pending) fired",
+        scens: vec![s("conn", d2::c07, 90_000, 3_000_000), s("reuse_after_abort", d2::c11, 30_000, 1_000_000)],
+        rule: "each run = one connection task Token::run over the simulated transport: 1..4 requests from a compliant open-loop client (request i+1 released after EndRequest i is in the log), noise records, a chooser-driven handler (read all/part/nothing via read or fill_buf, writes, every ExitStatus), reads of 1..n bytes or Pending and writes accepting 1..n bytes or Pending at every call, spurious polls; the decoded transport log and the handler log are compared with M-conn; one run in 16 is a long-lived connection of 5..12 requests; reuse_after_abort: the C11 connection scenario (an AbortRequest is not an I/O error: with keep-conn the next request must be served); distinct = distinct (skeleton, digest); non-trivial = at least one non-default scheduling alternative or transport fault (short read/write, Pending) fired",
         assumptions: vec!["client keeps one request outstanding", "handlers drop their writers before returning and become writeable before writing (documented requirements)"],
         real: REAL_ASYNC.to_vec(), stub: STUB_ASYNC.to_vec(),
     });
     v.push(PropDef {
         miri: None,
         id: "C08", level: "exploration", driver: "D2 deterministic executor in strict wake-only mode + closed-loop peer",
-        scens: vec![s("closed_loop", d2::c08, 90_000, 3_000_000), s("closed_loop_duplex", d2::c08_duplex, 45_000, 1_500_000)],
+        scens: vec![s("closed_loop", d2::c08, 90_000, 3_000_000), s("closed_loop_duplex", d2::c08_duplex, 45_000, 1_500_000), s("query_then_more_in_one_burst", d2::c08_bursts, 45_000, 1_500_000)],
         rule: "each run = one connection under the closed-loop peer of the quantifier (whole records, delivered in arbitrary pieces; after each GetValues/unknown-type record everything further is withheld until the complete reply is in the transport log) with queries at every placement class, seeded grouping of records into bursts, seeded handler and write-side readiness; invariant at every suspension on the transport read: all replies for complete records already read are in the log; at quiescence: no wait-for cycle; non-trivial = at least one reply owed",
         assumptions: vec!["peer sends whole records and withholds later ones (the quantifier of C08); under this peer a suspension on read cannot be mid-record behind an owed reply"],
         real: REAL_ASYNC.to_vec(), stub: STUB_ASYNC.to_vec(),
